@@ -337,6 +337,13 @@ def fault_unit(run, cases, rng, per_case=3, tag="faults", max_points=40):
                        bufsize=rng.choice([0, 2, 8]), initsc=0,
                        reset=dict(traces.reset_fields(c, ci + 1), cid=c.id, pure=pure))
             plans.append((c, job, os.path.join(wd, "clean-%s-%d.ndjson" % (c.id, k))))
+        if c.cfg.get("stack", True) and c.cfg.get("stack") != "no":
+            # a start-condition stack that has to grow (more than YY_START_STACK_INCR pushes): its allocations are fault points too
+            nsc = len(c.src["scs"])
+            deep = [("P", rng.randrange(nsc)) for _ in range(27)] + [("-", 0)] + [("P", rng.randrange(nsc)) for _ in range(26)] + [("O", 0)] * 6 + [("-", 0)]
+            job = dict(input=bytes(rng.choice(c.alphabet) for _ in range(8)), files=[b""], sched=[3], ops=deep, outs=[], wraps=[("T", 1)], pure=True,
+                       bufsize=0, initsc=0, reset=dict(traces.reset_fields(c, ci + 1), cid=c.id, pure=True))
+            plans.append((c, job, os.path.join(wd, "clean-%s-deep.ndjson" % c.id)))
     with cf.ThreadPoolExecutor(NCPU) as ex:
         list(ex.map(lambda x: traces.run_jobs(x[0], [x[1]], x[2]), plans))
     work = []; expect = {}
